@@ -383,6 +383,8 @@ def gap_status(model, avs, bvs):
     k = avs.index(I32_MIN) * len(bvs) + bvs.index(-1)
     st = {"rem_open": any(model[p][r]["Rem"][k][0] == 0 for p in ("debug", "release") for r in ("fast", "ops")),
           "neg_open": model["debug"]["neg"][avs.index(I32_MIN)][0] == 0}
+    kz = avs.index(0) * len(bvs) + bvs.index(-1)
+    st["div_negzero_filter"] = {r: model["debug"][r]["Div"][kz][0] != 1 for r in ("fast", "ops")}   # 0 / -1 not an Integer32
     src, names = "", []
     if st["rem_open"]:
         src += REFUTE
